@@ -351,18 +351,51 @@ theorem shape_offsets (line : Chars) : Bounded line.length (shape line) := by
 
 def ExprMsg (m : String) : Prop := m = "Syntax error" ∨ m = "Unmatched parenthesis"
 
-theorem ex_error {α : Type} {off : Nat} {e : Chars} {f : Expr → α} {pe : ParseErr}
-    (h : (shiftErr off (ExprParse.parseExpr (String.ofList e))).map f = .error pe) :
+/-- what `C02.reject_is_parser_error` says about an expression parser -/
+def GoodErrors (pexp : String → Except ParseErr Expr) : Prop :=
+  ∀ s pe, pexp s = .error pe → ExprMsg pe.error ∧ 1 ≤ pe.column ∧ pe.column ≤ s.length + 1
+
+theorem parseExpr_goodErrors : GoodErrors ExprParse.parseExpr := by
+  intro s pe h
+  have := C02.reject_is_parser_error s pe h
+  exact ⟨this.1, this.2.2⟩
+
+theorem ex_error {pexp : String → Except ParseErr Expr} (hg : GoodErrors pexp) {α : Type} {off : Nat} {e : Chars}
+    {f : Expr → α} {pe : ParseErr} (h : (shiftErr off (pexp (String.ofList e))).map f = .error pe) :
     ExprMsg pe.error ∧ off + 1 ≤ pe.column ∧ pe.column ≤ off + e.length + 1 := by
-  cases hp : ExprParse.parseExpr (String.ofList e) with
+  cases hp : pexp (String.ofList e) with
   | ok x => rw [hp] at h; cases h
   | error pe0 =>
     rw [hp] at h
     simp only [shiftErr, Except.map] at h
     cases h
-    have := C02.reject_is_parser_error _ _ hp
+    have := hg _ _ hp
     simp only [String.length_ofList] at this
     refine ⟨this.1, ?_, ?_⟩ <;> simp only <;> omega
+
+theorem classifyL_error_column {pexp : String → Except ParseErr Expr} (hg : GoodErrors pexp) (line : Chars)
+    (pe : ParseErr) (h : classifyL pexp line = .error pe) :
+    ExprMsg pe.error ∧ 1 ≤ pe.column ∧ pe.column ≤ line.length + 1 := by
+  have hb := shape_offsets line
+  unfold classifyL at h
+  simp only at h
+  split at h
+  all_goals first
+    | (rename_i hs; rw [hs] at hb; simp only [Bounded] at hb
+       have := ex_error hg h
+       exact ⟨this.1, by omega, by omega⟩)
+    | (cases h; done)
+    | skip
+  -- expression statement: the whole line
+  cases hp : pexp (String.ofList line) with
+  | ok x => rw [hp] at h; cases h
+  | error pe0 =>
+    rw [hp] at h
+    simp only [Except.map] at h
+    cases h
+    have := hg _ _ hp
+    simp only [String.length_ofList] at this
+    exact this
 
 /-- **`classify_error_column`**: an error of the line classifier (always an expression error) carries one of the two
 expression error texts and a column inside the line (`len + 1` = end of line) — all eight statement kinds with an
@@ -370,26 +403,7 @@ expression. -/
 theorem classify_error_column (line : String) (pe : ParseErr)
     (h : Scan.classify ExprParse.parseExpr line = .error pe) :
     ExprMsg pe.error ∧ 1 ≤ pe.column ∧ pe.column ≤ line.length + 1 := by
-  have hb := shape_offsets line.toList
-  have hl : line.toList.length = line.length := String.length_toList
-  unfold Scan.classify classifyL at h
-  simp only at h
-  split at h
-  all_goals first
-    | (cases h; done)
-    | (rename_i hs; rw [hs] at hb; simp only [Bounded] at hb
-       have := ex_error h
-       exact ⟨this.1, by omega, by omega⟩)
-    | skip
-  -- expression statement: the whole line
-  cases hp : ExprParse.parseExpr (String.ofList line.toList) with
-  | ok x => rw [hp] at h; cases h
-  | error pe0 =>
-    rw [hp] at h
-    simp only [Except.map] at h
-    cases h
-    have := C02.reject_is_parser_error _ _ hp
-    simp only [String.length_ofList] at this
-    exact ⟨this.1, by omega, by omega⟩
+  have := classifyL_error_column parseExpr_goodErrors line.toList pe h
+  simpa only [String.length_toList] using this
 
 end C06
